@@ -962,6 +962,14 @@ theorem serve_own_strict (cfg : Cfg) (e : End) (rs : List OReq)
   refine Prod.ext rfl (Prod.ext rfl ?_)
   exact (bodyOf_toW sField r.body).symm
 
+/-- a value that is `close` in some letter case contains no blank -/
+theorem ciEq_close_nb (v : Bytes) (h : ciEq v strClose = true) : ∀ c ∈ v, c ≠ 32 ∧ c ≠ 9 := by
+  rw [ciEq_iff] at h
+  intro c hc
+  have hm : lowerSpec c ∈ v.map lowerSpec := List.mem_map_of_mem hc
+  rw [h] at hm
+  constructor <;> (rintro rfl; revert hm; decide +kernel)
+
 theorem pickClose_seen_strict : ∀ (fs : List FLine) (d1 d2 : Bool), (∀ f ∈ fs, wfFLine f = true) → (d1 = true → d2 = true) →
     pickClose (fs.map hField) d1 = true → pickClose (fs.map sField) d2 = true
   | [], _, _, _, hd, h => hd h
@@ -971,9 +979,8 @@ theorem pickClose_seen_strict : ∀ (fs : List FLine) (d1 d2 : Bool), (∀ f ∈
     by_cases hc : cls f.name = .conn
     · simp only [hc, if_true]
       intro hv
-      have hv' : hval f = strClose := by simpa using hv
-      have := sval_eq_hval_of_nb f (hw f (by simp)) (by rw [hv']; decide)
-      simp [this, hv']
+      have := sval_eq_hval_of_nb f (hw f (by simp)) (ciEq_close_nb _ hv)
+      rw [this]; exact hv
     · simpa [hc] using hd
 
 /-- The server closes after a request only if the strict reading says `Connection: close` too (the converse fails:
@@ -1037,14 +1044,16 @@ theorem pickClose_strict_seen : ∀ (fs : List FLine) (d : Bool), (∀ f ∈ fs,
   | f :: t, d, hw => by
     simp only [List.map_cons, pickClose, hField, sField]
     have hf := hw f (by simp)
-    have hb : (hval f == strClose) = (sval f == strClose) := by
-      by_cases h1 : hval f = strClose
-      · have := sval_eq_hval_of_nb f hf (by rw [h1]; decide)
-        simp [this, h1]
-      · by_cases h2 : sval f = strClose
-        · have := hval_eq_sval_of_nb f hf (by rw [h2]; decide)
-          exact absurd (this.trans h2) h1
-        · rw [beq_eq_false_iff_ne.mpr h1, beq_eq_false_iff_ne.mpr h2]
+    have hb : ciEq (hval f) strClose = ciEq (sval f) strClose := by
+      by_cases h1 : ciEq (hval f) strClose = true
+      · have := sval_eq_hval_of_nb f hf (ciEq_close_nb _ h1)
+        rw [this]
+      · by_cases h2 : ciEq (sval f) strClose = true
+        · have := hval_eq_sval_of_nb f hf (ciEq_close_nb _ h2)
+          rw [this] at h1
+          exact absurd h2 h1
+        · rw [Bool.not_eq_true] at h1 h2
+          rw [h1, h2]
     rw [hb]
     exact pickClose_strict_seen t _ (fun x hx => hw x (by simp [hx]))
 
